@@ -277,7 +277,7 @@ Proof.
 Qed.
 
 Lemma sstep_sound : forall p,
-  (forall a c, in_scope p (length (fst c)) -> sat p a = true -> sstep a c (prune p c)) -> sound p.
+  (forall a (c : ctx), in_scope p (length (fst c)) -> sat p a = true -> sstep a c (prune p c)) -> sound p.
 Proof.
   intros p H s ev a Hwf Hsc Hi Hsat.
   destruct (H a (s, ev) Hsc Hsat Hwf Hi) as ([s' ev'] & E & _ & Hi' & _).
@@ -912,4 +912,185 @@ Proof.
   - apply fr_frame; cbn [prune trig sat mk_lin_ne].
     + intros c1 c2 F. apply prune_lin_ne_fr; [apply combine_vars_in | exact F].
     + intros a1 a2 H. rewrite (lin_sat_frame cs xs a1 a2 H). reflexivity.
+Qed.
+
+(* ------------------------------------------------------------------------------------------ *)
+(* reified forms: helpers *)
+
+Lemma fixed_sum_sum : forall a s l,
+  (forall cf x, In (cf, x) l -> dmin (sget s x) <= a x <= dmax (sget s x)) ->
+  forall acc sm, fixed_sum s l acc = Some sm -> sm = acc + lsum (real a) l.
+Proof.
+  intros a s. induction l as [|[cf x] r IH]; intros HB acc sm H; cbn [fixed_sum lsum] in *.
+  - inversion H. lia.
+  - cbv zeta in H. pose proof (HB cf x (or_introl eq_refl)) as B.
+    destruct (Z.eqb_spec (dmin (sget s x)) (dmax (sget s x))) as [E|E]; [|discriminate].
+    rewrite (IH (fun cf' x' Hin => HB cf' x' (or_intror Hin)) _ _ H). unfold real at 2.
+    assert (a x = dmin (sget s x)) by lia. nia.
+Qed.
+
+Lemma fixed_sum_fixed : forall a s l, inst a s -> lfixed l s ->
+  forall acc, fixed_sum s l acc = Some (acc + lsum (real a) l).
+Proof.
+  intros a s. induction l as [|[cf x] r IH]; intros Hi Hf acc; cbn [fixed_sum lsum].
+  - rewrite Z.add_0_r. reflexivity.
+  - cbv zeta. destruct (lfixed_vals a s _ Hi Hf cf x (or_introl eq_refl)) as [A B]. rewrite A, B, Z.eqb_refl.
+    rewrite IH; [|exact Hi | intros cf' x' Hin; eapply Hf; right; exact Hin].
+    unfold real at 2. rewrite Z.add_assoc. reflexivity.
+Qed.
+
+Lemma fixed_sum_agree : forall s1 s2 l, (forall cf x, In (cf, x) l -> sget s1 x = sget s2 x) ->
+  forall acc, fixed_sum s1 l acc = fixed_sum s2 l acc.
+Proof.
+  intros s1 s2. induction l as [|[cf x] r IH]; intros H acc; cbn [fixed_sum]; [reflexivity|].
+  cbv zeta. rewrite (H cf x (or_introl eq_refl)).
+  destruct (dmin (sget s2 x) =? dmax (sget s2 x)); [|reflexivity].
+  apply IH. intros cf' x' Hin. eapply H; right; exact Hin.
+Qed.
+
+Lemma sum_bounds_lsum : forall s l, sum_bounds s l = (lsum (term_min s) l, lsum (term_max s) l).
+Proof.
+  intros s. induction l as [|[cf x] r IH]; cbn [sum_bounds lsum]; [reflexivity|]. rewrite IH. reflexivity.
+Qed.
+
+Lemma set_bool_cstep : forall L b v c, In b L -> cstep L c (set_bool b v c).
+Proof.
+  intros L b v c HL. unfold set_bool. apply cstep_bind; [apply cstep_set_min; exact HL|].
+  intros c1 _. apply cstep_set_max; exact HL.
+Qed.
+
+Lemma set_bool_sound : forall a b v (c : ctx), (b < length (fst c))%nat -> a b = v -> sstep a c (set_bool b v c).
+Proof.
+  intros a b v c Hb E. unfold set_bool. apply sstep_bind; [apply sstep_set_min; [exact Hb | lia]|].
+  intros c1 L1. apply sstep_set_max; [lia | lia].
+Qed.
+
+Lemma set_bool_fr : forall L b v c1 c2, In b L -> fr L c1 c2 -> orel (fr L) (set_bool b v c1) (set_bool b v c2).
+Proof.
+  intros L b v c1 c2 HL F. unfold set_bool. apply orel_bind; [apply fr_set_min; assumption|].
+  intros d1 d2 F'. apply fr_set_max; assumption.
+Qed.
+
+Lemma set_bool_fixed : forall b v (c : ctx), dfixed (sget (fst c) b) = true -> set_bool b v c <> None ->
+  dmin (sget (fst c) b) = v.
+Proof.
+  intros b v c Hf Hne. unfold set_bool in Hne.
+  destruct (cset_min b v c) as [c1|] eqn:E1; [|exfalso; apply Hne; reflexivity]. cbn [obind] in Hne.
+  apply fixed_set_min in E1; [|exact Hf]. destruct E1 as [-> Lo].
+  destruct (cset_max b v c) as [c2|] eqn:E2; [|exfalso; apply Hne; reflexivity].
+  apply fixed_set_max in E2; [|exact Hf]. destruct E2 as [_ Hi].
+  apply dfixed_single in Hf. destruct Hf as [z Hz]. rewrite Hz in *. cbn [dmin dmax hd last] in *. lia.
+Qed.
+
+Lemma reif_is_val : forall a b v (c : ctx), dmin (sget (fst c) b) <= a b <= dmax (sget (fst c) b) ->
+  reif_is b v c = true -> a b = v.
+Proof.
+  intros a b v c B H. unfold reif_is, cvar_min, cvar_max in H. apply andb_true_iff in H.
+  destruct H as [H1 H2]. apply Z.eqb_eq in H1, H2. lia.
+Qed.
+
+Lemma reif_is_fixed : forall a b v (c : ctx), dmin (sget (fst c) b) = a b -> dmax (sget (fst c) b) = a b ->
+  reif_is b v c = (a b =? v).
+Proof. intros a b v c H1 H2. unfold reif_is, cvar_min, cvar_max. rewrite H1, H2. apply andb_diag. Qed.
+
+Lemma reif_is_agree : forall L b v c1 c2, In b L -> fr L c1 c2 -> reif_is b v c1 = reif_is b v c2.
+Proof. intros L b v c1 c2 HL F. unfold reif_is, cvar_min, cvar_max. rewrite (proj1 F b HL). reflexivity. Qed.
+
+Lemma reif_sat_decode : forall v P, is01 v && Bool.eqb (v =? 1) P = true ->
+  (v = 1 /\ P = true) \/ (v = 0 /\ P = false).
+Proof.
+  intros v P H. apply andb_true_iff in H. destruct H as [H1 H2]. apply eqb_prop in H2.
+  unfold is01 in H1. apply orb_true_iff in H1. destruct H1 as [H1|H1]; apply Z.eqb_eq in H1; subst v.
+  - right. split; [reflexivity | symmetry; exact H2].
+  - left. split; [reflexivity | symmetry; exact H2].
+Qed.
+
+Lemma reif_sat_encode : forall v P, (v = 1 /\ P = true) \/ (v = 0 /\ P = false) ->
+  is01 v && Bool.eqb (v =? 1) P = true.
+Proof. intros v P [[-> ->]|[-> ->]]; reflexivity. Qed.
+
+Lemma reif_vars_in : forall cs xs b, lvars_in (combine cs xs) (xs ++ [b]).
+Proof. intros cs xs b cf x H. apply in_or_app. left. eapply in_combine_r; exact H. Qed.
+Lemma reif_b_in : forall (xs : list nat) b, In b (xs ++ [b]).
+Proof. intros. apply in_or_app. right. left. reflexivity. Qed.
+
+Lemma reif_scope : forall cs xs b n, (forall v, In v (xs ++ [b]) -> (v < n)%nat) ->
+  lscope (combine cs xs) n /\ (b < n)%nat.
+Proof.
+  intros cs xs b n H. split; [|apply H, reif_b_in]. intros cf x Hin. apply H. eapply reif_vars_in; exact Hin.
+Qed.
+
+Lemma reif_fixed : forall cs xs b s, (forall v, In v (xs ++ [b]) -> dfixed (sget s v) = true) ->
+  lfixed (combine cs xs) s /\ dfixed (sget s b) = true.
+Proof.
+  intros cs xs b s H. split; [|apply H, reif_b_in]. intros cf x Hin. apply H. eapply reif_vars_in; exact Hin.
+Qed.
+
+Lemma reif_sat_frame : forall cs xs b a1 a2, (forall v, In v (xs ++ [b]) -> a1 v = a2 v) ->
+  a1 b = a2 b /\ lin_sem (combine cs xs) a1 = lin_sem (combine cs xs) a2.
+Proof.
+  intros cs xs b a1 a2 H. split; [apply H, reif_b_in|]. apply lin_sat_frame.
+  intros v Hv. apply H. apply in_or_app. left. exact Hv.
+Qed.
+
+(* ------------------------------------------------------------------------------------------ *)
+(* IntLinEqReif *)
+
+Theorem mk_lin_eq_reif_good : forall cs xs k b, all_zero cs xs = false -> good (mk_lin_eq_reif cs xs k b).
+Proof.
+  intros cs xs k b Hz.
+  pose proof (reif_vars_in cs xs b) as HL. pose proof (reif_b_in xs b) as Hb.
+  split; [|split; [|split]].
+  - apply cstep_contracting. intros c. cbn [prune trig mk_lin_eq_reif]. unfold prune_lin_eq_reif. cbv zeta.
+    destruct (reif_is b 1 c); [apply prune_lin_eq_cstep; exact HL|].
+    destruct (reif_is b 0 c).
+    + destruct (fixed_sum (fst c) (combine cs xs) 0) as [sm|]; [|apply cstep_ret].
+      destruct (sm =? k); [apply cstep_none | apply cstep_ret].
+    + destruct (fixed_sum (fst c) (combine cs xs) 0) as [sm|]; [|apply cstep_ret].
+      destruct (sm =? k); apply set_bool_cstep; exact Hb.
+  - apply sstep_sound. intros a c Hsc Hsat. cbn [prune trig sat mk_lin_eq_reif in_scope] in *.
+    destruct (reif_scope cs xs b _ Hsc) as [Hsl Hsb]. apply reif_sat_decode in Hsat.
+    intros Hwf Hi. pose proof (lbounds a (fst c) _ Hwf Hi Hsl) as HB.
+    pose proof (inst_bounds a (fst c) b Hwf Hi Hsb) as Bb.
+    generalize Hwf Hi. change (sstep a c (prune_lin_eq_reif cs xs k b c)). unfold prune_lin_eq_reif. cbv zeta.
+    destruct (reif_is b 1 c) eqn:R1.
+    { apply (reif_is_val a) in R1; [|exact Bb]. apply prune_lin_eq_sound; [exact Hsl|].
+      destruct Hsat as [[_ P]|[A _]]; [apply Z.eqb_eq; exact P | lia]. }
+    destruct (reif_is b 0 c) eqn:R0.
+    { apply (reif_is_val a) in R0; [|exact Bb].
+      destruct (fixed_sum (fst c) (combine cs xs) 0) as [sm|] eqn:FS; [|apply sstep_ret].
+      apply (fixed_sum_sum a _ _ HB) in FS. rewrite <- lin_sem_lsum in FS.
+      destruct Hsat as [[A _]|[_ P]]; [lia|]. apply Z.eqb_neq in P.
+      destruct (Z.eqb_spec sm k); [exfalso; lia | apply sstep_ret]. }
+    destruct (fixed_sum (fst c) (combine cs xs) 0) as [sm|] eqn:FS; [|apply sstep_ret].
+    apply (fixed_sum_sum a _ _ HB) in FS. rewrite <- lin_sem_lsum in FS.
+    destruct (Z.eqb_spec sm k) as [K|K]; apply set_bool_sound; try exact Hsb.
+    + destruct Hsat as [[A _]|[_ P]]; [exact A|]. apply Z.eqb_neq in P. exfalso; lia.
+    + destruct Hsat as [[_ P]|[A _]]; [|exact A]. apply Z.eqb_eq in P. exfalso; lia.
+  - intros s ev a Hwf Hi Hf Hne. cbn [prune trig sat mk_lin_eq_reif] in *.
+    destruct (reif_fixed cs xs b s Hf) as [Hfl Hfb].
+    destruct (fixed_value a s b Hi Hfb) as [Vmin Vmax].
+    apply reif_sat_encode. unfold prune_lin_eq_reif in Hne. cbv zeta in Hne.
+    rewrite !(reif_is_fixed a b _ (s, ev) Vmin Vmax) in Hne.
+    rewrite (fixed_sum_fixed a s _ Hi Hfl) in Hne. cbn [fst] in Hne. rewrite <- lin_sem_lsum in Hne.
+    rewrite Z.add_0_l in Hne.
+    destruct (Z.eqb_spec (a b) 1) as [B1|B1].
+    { left. split; [exact B1|]. apply Z.eqb_eq.
+      apply (prune_lin_eq_checking a cs xs k (s, ev)); assumption. }
+    destruct (Z.eqb_spec (a b) 0) as [B0|B0].
+    { right. split; [exact B0|]. destruct (lin_sem (combine cs xs) a =? k); [exfalso; apply Hne|]; reflexivity. }
+    exfalso. destruct (lin_sem (combine cs xs) a =? k);
+      apply (set_bool_fixed b _ (s, ev) Hfb) in Hne; cbn [fst] in Hne; lia.
+  - apply fr_frame; cbn [prune trig sat mk_lin_eq_reif].
+    + intros c1 c2 F. unfold prune_lin_eq_reif. cbv zeta.
+      rewrite <- !(reif_is_agree _ b _ c1 c2 Hb F).
+      rewrite <- (fixed_sum_agree (fst c1) (fst c2) (combine cs xs))
+        by (intros cf x Hin; apply (proj1 F); eapply HL; exact Hin).
+      destruct (reif_is b 1 c1); [apply prune_lin_eq_fr; assumption|].
+      destruct (reif_is b 0 c1).
+      * destruct (fixed_sum (fst c1) (combine cs xs) 0) as [sm|]; [|exact F].
+        destruct (sm =? k); [exact I | exact F].
+      * destruct (fixed_sum (fst c1) (combine cs xs) 0) as [sm|]; [|exact F].
+        destruct (sm =? k); apply set_bool_fr; assumption.
+    + intros a1 a2 H. destruct (reif_sat_frame cs xs b a1 a2 H) as [-> ->]. reflexivity.
 Qed.
